@@ -271,12 +271,31 @@ class T5:
                 self.stats["dropped_local"] += 1
                 continue
             if not any(mentions_param(a) for a in c.trig):
+                lifted = self.lift_payload(body, c)
+                if lifted is not None and any(mentions_param(a) for a in lifted.trig):
+                    out.append(lifted)
+                    continue
                 self.stats["dropped_no_param"] += 1
                 continue
             out.append(c)
         self.stats["functions_summarised"] += 1
         self.memo[name] = out
         return out
+
+    def lift_payload(self, body, clause):
+        """a trigger `c <= x` / `c < x` on the variable x of a loop over lo..hi (constant c) fires for some iteration iff the range reaches
+        beyond c: rewrite it as a condition on the range's upper end, which may mention the function's parameters"""
+        from .templates import loop_range_of_payload
+        if len(clause.trig) != 1 or clause.trig[0][0] != "rel" or clause.trig[0][1] not in ("Le", "Lt") or clause.trig[0][2][0] != "int":
+            return None
+        op, c, x = clause.trig[0][1], clause.trig[0][2][1], clause.trig[0][3]
+        r = loop_range_of_payload(body, x, self.getters)
+        if r is None or r[1] is None:
+            return None
+        first_bad = c if op == "Le" else c + 1            # the smallest x that fires
+        # some x in the range is >= first_bad  <=>  hi > first_bad (exclusive) / hi >= first_bad (inclusive)
+        trig = [("rel", "Le" if r[2] else "Lt", ("int", first_bad), r[1])]
+        return Clause(clause.kind, clause.chain, [], trig, clause.span, clause.where, clause.fpath)
 
     def raw_clauses(self, body, depth, phi=True):
         """all panic clauses visible in `body` (own sites, callee clauses substituted, closures), before discharge"""
@@ -301,6 +320,13 @@ class T5:
                     op = t["msg"]["op"]
                     if op == "Sub":
                         trig = [("rel", "Lt", a, bb_)]
+                    elif op in ("Shl", "Shr"):
+                        # `x << n` overflows as soon as n reaches the bit width of x's type: an exact, small bound (not a "value too large
+                        # to occur" overflow), so it is a relational trigger and never falls under the weak criterion
+                        am = t["msg"]["a"]
+                        ty = am.get("ty") if am.get("k") == "const" else (body.local_ty(am["place"]["l"]) if am.get("k") in ("copy", "move") and not am["place"]["p"] else None)
+                        width = {"u8": 8, "i8": 8, "u16": 16, "i16": 16, "u32": 32, "i32": 32, "u64": 64, "i64": 64, "usize": 64, "isize": 64, "u128": 128, "i128": 128}.get(ty or "", 8)
+                        trig = [("rel", "Le", ("int", width), expand_phi(body, bb_, g) if phi else bb_)]
                     else:
                         trig = [("ovf", op, expand_phi(body, a, g) if phi else a, expand_phi(body, bb_, g) if phi else bb_)]
                     kind = "Overflow(%s)" % op
@@ -437,7 +463,7 @@ class T5:
             e, x = unmark(clause.trig[0][2]), unmark(clause.trig[0][3])
             xl = [l for l in arith_leaves(x) if l[0] != "int" and tracked(l)]
             el = [l for l in arith_leaves(e) if l[0] != "int" and tracked(l)]
-            if xl and not el and all(self.upper_bounded(l, facts) for l in xl):
+            if xl and not el and e[0] != "int" and all(self.upper_bounded(l, facts) for l in xl):
                 return ("discharged", "weak criterion: an upper bound on %s dominates (bound term %s not matched by substitution)" % (
                     ", ".join(sorted({show(l, 1)[:40] for l in xl})), show(e, 1)[:50]))
         return ("open", "no dominating fact excludes %s" % " & ".join(show_atom(a)[:90] for a in clause.trig))
@@ -462,8 +488,18 @@ class T5:
             self.inprogress.discard(entry)
         n = 0
         seen = set()
+        rw = getattr(self, "rewrite", None)
         for c in raw:
             leaves = self.tracked_leaves(c, tracked, deep)
+            if not leaves and rw is not None:
+                # a clause that does not mention the input as it stands may do so after the caller's rewriting (e.g. the dimension stored in a
+                # D-set that was built from parsed numbers); clauses that already mention the input are evaluated unchanged
+                t2 = [tuple(map_term(x, rw) if isinstance(x, tuple) else x for x in a) for a in c.trig]
+                if t2 != c.trig:
+                    c2 = Clause(c.kind, c.chain, c.path, t2, c.span, c.where, [tuple(map_term(x, rw) if isinstance(x, tuple) else x for x in a) for a in c.fpath])
+                    if self.tracked_leaves(c2, tracked, deep):
+                        c = c2
+                        leaves = self.tracked_leaves(c, tracked, deep)
             chain = ">".join(x.split("::")[-1] if not x.startswith("<") else x.rsplit("::", 1)[-1] for x in c.chain[1:])
             tsig = " & ".join(self.sig_atom(a, body, name_of) for a in c.trig)
             site = "%s%s:%s" % ((chain + ":") if chain else "", c.kind, tsig)
